@@ -288,6 +288,63 @@ def run(chk):
                 chk.violate("failing command must report an error, fail, and write nothing", inp, kind, {"ok": a.get("ok"), "errs": errs[:2], "writes": [w["name"] for w in a.get("writes", [])]})
             elif kind == "err-before" and a.get("has_output"):
                 chk.violate("invalid command line was assembled anyway", inp, "error before assembling", errs[:2])
+    # ---- groups do not affect each other: every file of a command with several groups holds exactly what the same group
+    # writes when it is the only group of the command (same inputs, same global options)
+    multi = []
+    for (c, argv, unw), a in zip(cmds, impl):
+        kind, writes = expected(c, okset)
+        if kind == "ok" and writes and not unw and len(c["groups"]) >= 2 and a.get("ok") and len(multi) < (1500 if thorough else 250):
+            multi.append((c, argv, a))
+    # a few commands built on purpose: the same format in two groups with different parameters
+    for _ in range(200 if thorough else 40):
+        c = gen_command(rng, formats)
+        fam = rng.choice([["annotated", "annotated,base:2,group:8", "annotatedbin", "annotated,base:8,group:3"],
+                          ["tcgame", "tcgamebin", "tcgame,base:2,group:4"],
+                          ["intelhex", "intelhex,addr_unit:16", "intelhex,addr_unit:32"]])
+        fam = [f for f in fam if f in okset or f.split(",")[0] in okset]
+        c["groups"] = [{"fmt": f, "out": "o%d.out" % i, "print": False} for i, f in enumerate(rng.sample(fam, min(len(fam), rng.randrange(2, 4))))]
+        c.update({"inputs": ["main.asm"], "iters": None, "defines": [], "color": None, "flags": [], "mode": "good"})
+        multi.append((c, render_command(rng, c), None))
+    sops, smeta = [], []
+    for c, argv, a in multi:
+        files = [(n, GOOD if i == 0 else "#d8 0x56\n") for i, n in enumerate(c["inputs"])]
+        fpart = "drv %d %s - " % (len(files), " ".join("%s %s" % (fw.hx(n), fw.hx(p)) for n, p in files))
+        if a is None:
+            sops.append(fpart + " ".join(fw.hx(x) for x in argv)); smeta.append((c, argv, "whole", None))
+        for gi, g in enumerate(c["groups"]):
+            if g["print"]:
+                continue
+            solo = dict(c); solo["groups"] = [g]
+            sargv = render_command(rng, solo)
+            # the same order of the input files as in the whole command (the files are assembled in that order)
+            pos = [i for i, x in enumerate(sargv) if x in c["inputs"]]
+            for i, n in zip(pos, [x for x in argv if x in c["inputs"]]):
+                sargv[i] = n
+            sops.append(fpart + " ".join(fw.hx(x) for x in sargv)); smeta.append((c, argv, "solo", gi))
+    sres = fw.run_oracle_resilient([re.sub(r"  +", " ", o) for o in sops], "c18s")
+    whole = {}
+    for (c, argv, kind, gi), r in zip(smeta, sres):
+        if kind == "whole":
+            whole[id(c)] = r
+    for (c, argv, a) in multi:
+        if a is None:
+            a = whole.get(id(c), {})
+        c["_whole"] = a
+    for (c, argv, kind, gi), r in zip(smeta, sres):
+        if kind != "solo":
+            continue
+        chk.evaluations += 1
+        a = c["_whole"]
+        wrote = [g for g in c["groups"] if not g["print"]]
+        k = wrote.index(c["groups"][gi])
+        aw = a.get("writes", [])
+        rw = r.get("writes", [])
+        chk.count("group_isolation")
+        if not a.get("ok") or not r.get("ok") or len(rw) != 1 or k >= len(aw) or aw[k]["data"] != rw[0]["data"]:
+            chk.violate("an output group is affected by the other groups of the command", {"argv": argv, "group": gi, "inputs": c["inputs"]},
+                        "the file the group writes when it is alone: %s" % (rw[0]["data"][:80] if rw else rw),
+                        "%s" % (aw[k]["data"][:80] if k < len(aw) else [w["name"] for w in aw]))
+    chk.traces += len(sops)
     chk.sample({"argv": cmds[0][1], "impl": {k: impl[0].get(k) for k in ("ok", "nerrors", "writes")}, "model": model[0]})
     chk.traces += len(aops)
     chk.notes.append("undocumented aliases accepted: annotatedhex, c (known finding F27); usage formats: %d" % len(usage))
